@@ -148,12 +148,28 @@ func checkC14(c *chk.Ctx) {
 	c.Done()
 }
 
-// extraFile is an unrelated file added to requests by the "extra_unrelated" variant.
+// extraFile is an unrelated file added to requests by the "extra_unrelated" variant: another
+// package with a service of its own whose messages have the SAME SHORT NAMES as messages the base
+// services reach (Out, Child, W, MapB, ListA), with other contents - a short name identifies a
+// message within one package only.
 func extraFile() *abs.File {
+	str := func(n string, num int32) *abs.Field {
+		return &abs.Field{Name: n, Num: num, Kind: "string", Card: "one", Rules: abs.NoRules()}
+	}
+	pk := "zzextra.v1."
 	return &abs.File{Name: "zzextra/unrelated.proto", Pkg: "zzextra.v1", GoPkg: "scratch/gen/zzextra;zzextra", Generate: true,
-		Messages: []*abs.Message{{Name: "Unrelated", Fields: []*abs.Field{{Name: "u", Num: 1, Kind: "string", Card: "rep", Rules: abs.NoRules(),
-			Ann: abs.Ann{Unwrap: true}}}}},
-		Services: []*abs.Service{{Name: "UnrelatedService", Methods: []*abs.Method{{Name: "Ping", In: "zzextra.v1.Unrelated", Out: "zzextra.v1.Unrelated"}}}}}
+		Messages: []*abs.Message{
+			{Name: "Unrelated", Fields: []*abs.Field{{Name: "u", Num: 1, Kind: "string", Card: "rep", Rules: abs.NoRules(), Ann: abs.Ann{Unwrap: true}}}},
+			{Name: "Out", Fields: []*abs.Field{str("zz_sku", 1), {Name: "zz_quantity", Num: 2, Kind: "int32", Card: "one", Rules: abs.NoRules()}}},
+			{Name: "Child", Fields: []*abs.Field{str("zz_only", 1)}},
+			{Name: "W", Fields: []*abs.Field{str("zz_w", 1), {Name: "zz_child", Num: 2, Kind: "message", Ref: pk + "Child", Card: "one", Rules: abs.NoRules()}}},
+			{Name: "MapB", Fields: []*abs.Field{{Name: "zz_tags", Num: 1, Kind: "string", Card: "rep", Rules: abs.NoRules()}}},
+			{Name: "ListA", Fields: []*abs.Field{str("zz_cursor", 1)}},
+		},
+		Services: []*abs.Service{{Name: "UnrelatedService", Methods: []*abs.Method{
+			{Name: "Ping", In: pk + "Unrelated", Out: pk + "Unrelated"},
+			{Name: "Stock", In: pk + "Out", Out: pk + "W"},
+			{Name: "Tags", In: pk + "MapB", Out: pk + "ListA"}}}}}
 }
 
 // checkC15 : generation is a pure, order-independent function of the definitions.
